@@ -187,7 +187,7 @@ def callableOf (j : Json) : Except String Callable := do
          invoker := (← optStr j "invoker"), ctype := (← optStr j "ctype"), when := (← optStr j "when"),
          noRecurse := (← boolD j "no_recurse" false), detailed := (← boolD j "detailed" false),
          action := (← boolD j "action" false), noHooks := (← boolD j "no_hooks" false),
-         emitter := (← optStr j "emitter") }
+         emitter := (← optStr j "emitter"), anonymous := (← boolD j "anonymous" false) }
 
 def callableJson (c : Callable) : Json :=
   Json.mkObj ([("klass", Json.str (klassStr c.klass)), ("tag", Json.str c.tag), ("name", jstr c.name),
